@@ -213,6 +213,23 @@ def main():
         if (mt is not None) != any(ztrue([z3.InRe(V(s_[:k]), D["matched"])]) for k in range(len(s_) + 1)):
             bad += 1
             print("TEXT DEFINITION: the comment test is not 'some prefix is in the pattern's language'", repr(s_))
+    # ---- the number-formatting assumption of the round-trip lemma (LEMMA_ASSUMPTIONS of contracts/C01.py): int(str(k)) == k; float(format(v, '.4f'))
+    # succeeds and is the decimal expansion of v rounded half-even to four decimals (that is what `round4` stands for), for float32 values
+    from decimal import ROUND_HALF_EVEN, Decimal
+
+    import numpy as np
+
+    for _ in range(cases * 20):
+        k_ = rng.choice([0, 1, -1, rng.randint(-10**9, 10**9), rng.randint(0, 2**31 - 1)])
+        if int(str(k_)) != k_ or int(str(np.int32(k_ % 2**31))) != k_ % 2**31:
+            bad += 1
+            print("NUMBER FORMAT: int(str(k)) != k", k_)
+        v_ = float(np.float32(rng.choice([0.0, -0.0, 0.00005, 1e-5, 123456.789, 9999.99995, 16777216.0, rng.uniform(-1e6, 1e6), rng.uniform(-1, 1) * 10 ** rng.randint(-6, 7)])))
+        txt = format(v_, ".4f")
+        want = Decimal(v_).quantize(Decimal("0.0001"), rounding=ROUND_HALF_EVEN)
+        if Decimal(txt) != want or float(txt) != float(want):
+            bad += 1
+            print("NUMBER FORMAT: format(v, '.4f') is not v rounded half-even to four decimals", repr(v_), txt)
     print("xcheck_strmodel:", "OK" if not bad else f"{bad} mismatches", f"({cases} cases per model)")
     return 1 if bad else 0
 
